@@ -12,8 +12,10 @@ The fingerprint records: structure, Python types, dict insertion order, value ki
 dtype/shape/bytes and the id() of every container (Triangle, its cell list, every Cell, values dict,
 Metadata, details dicts, arrays) -- so rebinding `cell._values` to an equal dict, reordering keys, an
 in-place `+=` on an array, turning an int into a float or appending a cell are all visible.
-Caches (`functools.cached_property` entries in Triangle.__dict__) are not part of an argument's
-observable state and are not fingerprinted."""
+Caches (`functools.cached_property` entries in Triangle.__dict__) are not fingerprinted by identity;
+instead every Triangle argument's accessors (fields, periods, evaluation_dates, dev_lags(), metadata,
+slices keys, field counts, num_samples, is_incremental, common_metadata, repr, ...) are read BEFORE the call
+and compared BY VALUE after it (`observables`), which catches a cached list/dict extended in place."""
 from __future__ import annotations
 
 import dataclasses
@@ -115,6 +117,82 @@ def _short(t):
     return s if len(s) < 160 else s[:157] + "..."
 
 
+# ------------------------------------------------------------------ triangle-level observable accessors
+ACCESSORS = ["fields", "periods", "evaluation_dates", "evaluation_date", "metadata", "common_metadata",
+             "metadata_differences", "field_cell_counts", "field_slice_counts", "num_samples", "is_incremental",
+             "is_multi_slice", "is_empty", "experience_gaps", "eval_date_resolution", "period_resolution",
+             "has_consistent_currency", "has_consistent_risk_basis", "is_disjoint", "is_slicewise_disjoint"]
+
+
+def value_fp(o, depth=0):
+    """Fingerprint BY VALUE (no ids): what a caller reads off an accessor."""
+    if isinstance(o, (bool, np.bool_)):
+        return ("bool", bool(o))
+    if isinstance(o, (int, np.integer)):
+        return ("int", int(o))
+    if isinstance(o, (float, np.floating)):
+        return ("float", float(o).hex())
+    if o is None or isinstance(o, (str, bytes)):
+        return (type(o).__name__, o)
+    if isinstance(o, (datetime.date, datetime.timedelta)):
+        return (type(o).__name__, repr(o))
+    if isinstance(o, np.ndarray):
+        return ("ndarray", str(o.dtype), tuple(o.shape), hashlib.blake2b(
+            o.tobytes() if o.dtype != object else repr(o.tolist()).encode(), digest_size=12).hexdigest())
+    if depth > 8:
+        return ("deep", type(o).__name__)
+    d = depth + 1
+    if isinstance(o, dict):
+        return (type(o).__name__, tuple((value_fp(k, d), value_fp(v, d)) for k, v in o.items()))
+    if isinstance(o, (list, tuple)):
+        return (type(o).__name__, tuple(value_fp(x, d) for x in o))
+    if isinstance(o, (set, frozenset)):
+        return (type(o).__name__, tuple(sorted(repr(value_fp(x, d)) for x in o)))
+    if dataclasses.is_dataclass(o) and not isinstance(o, type):
+        return (type(o).__name__, tuple((f.name, value_fp(getattr(o, f.name), d)) for f in dataclasses.fields(o)))
+    tn = type(o).__name__
+    if tn in ("Triangle", "TriangleSlice"):
+        return (tn, len(o))
+    return (tn, repr(o)[:200])
+
+
+def observables(t):
+    """What the accessors of a Triangle report, by value.  Taken BEFORE a call (which also fills the
+    functools.cached_property caches, as in real use) and again after it: a list or dict handed out by a cached
+    accessor that a callee extends in place shows up here even though no cell, values dict or metadata changed."""
+    out = []
+
+    def grab(name, thunk):
+        try:
+            v = thunk()
+            if hasattr(v, "__next__"):
+                v = list(v)
+            out.append((name, value_fp(v)))
+        except Exception as ex:  # noqa: BLE001
+            out.append((name, ("raised", type(ex).__name__)))
+
+    with warnings.catch_warnings():
+        warnings.simplefilter("ignore")
+        for name in ACCESSORS:
+            grab(name, lambda name=name: getattr(t, name))
+        grab("dev_lags()", lambda: t.dev_lags())
+        grab("slices.keys", lambda: list(t.slices.keys()))
+        grab("len", lambda: len(t))
+        grab("repr", lambda: repr(t))
+    return tuple(out)
+
+
+def _triangles_in(o, depth=0):
+    tn = type(o).__name__
+    if tn in ("Triangle", "TriangleSlice") and (type(o).__module__ or "").startswith("bermuda"):
+        return [o]
+    if depth < 2 and isinstance(o, (list, tuple)):
+        return [t for x in o for t in _triangles_in(x, depth + 1)]
+    if depth < 2 and isinstance(o, dict):
+        return [t for x in o.values() for t in _triangles_in(x, depth + 1)]
+    return []
+
+
 def monitored(f, args=(), kwargs=None, extra_watch=()):
     """Call f(*args, **kwargs).  Returns (result | None, exception | None, changes) where changes lists
     (label, path-of-first-difference) for every argument (and every object of extra_watch) whose
@@ -122,6 +200,13 @@ def monitored(f, args=(), kwargs=None, extra_watch=()):
     kwargs = kwargs or {}
     watch = [(f"arg{i}", a) for i, a in enumerate(args)] + [(f"kw:{k}", v) for k, v in kwargs.items()]
     watch += [(f"live{i}", w) for i, w in enumerate(extra_watch)]
+    tris, seen_t = [], set()
+    for label, w in watch:
+        for j, t in enumerate(_triangles_in(w)):
+            if id(t) not in seen_t:
+                seen_t.add(id(t))
+                tris.append((f"{label}.triangle{j}", t))
+    obs_before = [observables(t) for _, t in tris]
     before = [fingerprint(w) for _, w in watch]
     res, exc = None, None
     with warnings.catch_warnings():
@@ -142,6 +227,13 @@ def monitored(f, args=(), kwargs=None, extra_watch=()):
                 continue
             seen.add(tail)
             changes.append((label, d))
+    for (label, t), ob in zip(tris, obs_before):
+        oa = observables(t)
+        if oa != ob:
+            for (name, x), (_, y) in zip(ob, oa):
+                if x != y:
+                    changes.append((label, f"{label}: accessor {name} reported {_short(x)} before the call and {_short(y)} after it"))
+                    break
     return res, exc, changes
 
 
@@ -355,6 +447,33 @@ def _ops():
     # ---- plot data
     op("plot.build_plot_data")(lambda e: (build_plot_data, (e.t,), {"flat": e.rng.random() < 0.5, "keep_samples": e.rng.random() < 0.5,
                                                                    "remove_empties": e.rng.random() < 0.7}))
+    # ---- argument spellings / falsy-but-valid arguments / datetime-like coordinates (HARDENING D, E, K)
+    import pandas as pd
+
+    class _DT(datetime.datetime):
+        pass
+
+    def dt(d, h=13):
+        return datetime.datetime(d.year, d.month, d.day, h, 45)
+
+    op("tri.clip_datetime")(lambda e: (lambda t, d: t.clip(max_eval=dt(d), min_period=pd.Timestamp(t.periods[0][0]) if t.periods else None), (e.t, e.date()), {}))
+    op("tri.filter_none")(lambda e: (lambda t: t.filter(lambda c: 0), (e.t,), {}))
+    op("tri.select_empty")(lambda e: (lambda t: t.select([]), (e.t,), {}))
+    op("tri.dev_lags_upper")(lambda e: (lambda t, u: t.dev_lags(u), (e.t, e.rng.choice(["Months", "DAY", "Month"])), {}))
+    op("tri.derive_fields_falsy")(lambda e: (lambda t: t.derive_fields(zero=0, none=None, fzero=0.0, off=False), (e.t,), {}))
+    op("tri.derive_metadata_falsy")(lambda e: (lambda t: t.derive_metadata(per_occurrence_limit=0, country="", note=None, flag=False), (e.t,), {}))
+    op("cell.replace_datetime")(lambda e: (lambda c, d: c.replace(evaluation_date=_DT(d.year, d.month, d.day, 23, 59), period_end=pd.Timestamp(c.period_end)), (e.cell(), e.date()), {}))
+    op("utils.make_right_diagonal_ts")(lambda e: (U.make_right_diagonal, (e.t, [pd.Timestamp(e.date() + datetime.timedelta(days=400)), dt(e.date())]), {}))
+    op("utils.blend_zero_weight")(lambda e: (U.blend, ([e.t, e.other()],), {"weights": [0.0, 1.0], "method": e.rng.choice(["mixture", "Mixture", "LINEAR"]), "seed": 0}))
+    op("utils.thin_positional_seed0")(lambda e: (U.thin, (e.t, e.rng.choice([1, 2, 3]), 0), {}))
+    op("utils.bootstrap_positional")(lambda e: (U.bootstrap, (e.t, 1, 0, e.rng.choice([[], None, e.fields()[:1]])), {}))
+    op("utils.merge_upper")(lambda e: (U.merge, (e.t, e.other(), e.rng.choice(["FULL", "Inner", "full"])), {}))
+    op("utils.add_statics_empty")(lambda e: (U.add_statics, (e.t, e.other(), []), {}))
+    op("utils.aggregate_positional")(lambda e: (U.aggregate, (e.t, e.rng.choice([(1, "Year"), (1, "year"), (12, "months")]), None), {"summarize_premium": e.rng.choice([0, 1])}))
+    op("utils.summarize_falsy_kw")(lambda e: (U.summarize, (e.t, None, 0), {}))
+    op("utils.moment_match_empty")(lambda e: (U.moment_match, (e.t, [], "normal"), {}))
+    op("utils.split_empty")(lambda e: (U.split, (e.t, ()), {}))
+    op("io.to_binary_kw")(lambda e: (bermuda.io.triangle_to_binary, (), {"triangle": e.t, "filename": e.path("tribc"), "compress": 1}))
     # ---- plotting entry points (chart construction only; nothing is rendered)
     for nm in ["plot_right_edge", "plot_data_completeness", "plot_heatmap", "plot_atas", "plot_growth_curve",
                "plot_mountain", "plot_ballistic", "plot_broom", "plot_drip", "plot_hose", "plot_sunset", "plot_histogram"]:
@@ -385,14 +504,14 @@ def gen_triangle(rng: random.Random, shape=None):
     v, b, s = shape or rng.choice(SHAPES)
     g = Gen(rng)
     values = rng.choice(["int", "float"]) if v == "scalar" else rng.choice(["arr_float", "arr_float", "arr_int", "mixed"])
-    layout = rng.choice(["regular", "regular", "ragged", "ragged", "holey", "single_period", "single_lag", "irregular"])
+    layout = rng.choice(["regular", "regular", "ragged", "ragged", "holey", "single_period", "single_lag", "irregular", "daily"])
     n_slices = 1 if s == 1 else rng.choice([2, 3])
     fields = rng.sample(["paid_loss", "reported_loss", "earned_premium", "incurred_loss"], rng.randint(1, 3))
     if rng.random() < 0.6 and "earned_premium" not in fields:
         fields.append("earned_premium")
     t, info = g.triangle(layout=layout, basis=b, n_slices=n_slices, values=values, fields=fields,
                          res=rng.choice([3, 3, 12, 1, 6]), n_periods=rng.randint(1, 4), n_lags=rng.randint(1, 4),
-                         n_samples=rng.choice([3, 5]),
+                         n_samples=rng.choice([3, 5]), same_fields=rng.random() < 0.8,
                          slice_diff=rng.choice(["details", "country", "currency", "loss_details", "several", None]))
     # positive values make more operations succeed (bootstrap, moment_match, disaggregate)
     if rng.random() < 0.5:
@@ -447,6 +566,111 @@ def bermuda_triangle(cells):
     return Triangle(cells)
 
 
+_DIRECTED = None
+
+
+def directed_triangles():
+    """Small hand-made triangles, one per input family of notes/HARDENING.md (A-L); every monitored operation
+    runs once on each of them in every quick run."""
+    global _DIRECTED
+    if _DIRECTED is not None:
+        return _DIRECTED
+    import pandas as pd
+    from bermuda import CumulativeCell, IncrementalCell, Metadata, Triangle
+
+    D = datetime.date
+    out = {}
+    Q = [(D(2020, 1, 1), D(2020, 3, 31)), (D(2020, 4, 1), D(2020, 6, 30)), (D(2020, 7, 1), D(2020, 9, 30))]
+    EV = [D(2020, 9, 30), D(2020, 12, 31), D(2021, 3, 31)]
+
+    def grid(meta_of=lambda i, j: None, vals_of=lambda i, j: {"paid_loss": 100 * (i + 1) + j, "earned_premium": 500},
+             periods=Q, evs=EV, inc=False, coord=lambda d, k: d):
+        cells = []
+        for i, (ps, pe) in enumerate(periods):
+            prev = ps - datetime.timedelta(days=1)
+            for j, e in enumerate(evs):
+                if e < pe:
+                    continue
+                kw = dict(period_start=coord(ps, 0), period_end=coord(pe, 1), evaluation_date=coord(e, 2),
+                          values=vals_of(i, j), metadata=meta_of(i, j))
+                if inc:
+                    cells.append(IncrementalCell(prev_evaluation_date=prev, **kw))
+                    prev = e
+                else:
+                    cells.append(CumulativeCell(**kw))
+        return cells
+
+    def add(name, thunk):
+        try:
+            with warnings.catch_warnings():
+                warnings.simplefilter("ignore")
+                out[name] = thunk()
+        except Exception:  # noqa: BLE001  (a family the constructor itself refuses: nothing to monitor)
+            pass
+
+    arr = lambda i, j, n=3: np.array([10.0 * (i + 1) + j + k for k in range(n)])   # noqa: E731
+    # A  equal Metadata spelled differently inside one slice
+    m1 = Metadata(details={"a": 7, "b": True, "lob": "x"}, loss_details={"c": 1, "d": "y"}, per_occurrence_limit=1000)
+    m2 = Metadata(details={"lob": "x", "b": 1, "a": 7.0}, loss_details={"d": "y", "c": 1.0}, per_occurrence_limit=1000.0)
+    add("A:equal-metadata-spelled-differently", lambda: Triangle(grid(lambda i, j: m1 if (i + j) % 2 else m2)))
+    add("A:same+second-slice", lambda: Triangle(grid(lambda i, j: m1 if (i + j) % 2 else m2) + grid(lambda i, j: Metadata(country="DE"))))
+    # B  distinct Metadata that flatten alike
+    for nm, ms in {"currency-attr-vs-detail": [Metadata(currency="USD"), Metadata(details={"currency": "USD"})],
+                   "detail-vs-loss_detail": [Metadata(details={"k": "v"}), Metadata(loss_details={"k": "v"})],
+                   "only-loss_details": [Metadata(loss_details={"cov": "a"}), Metadata(loss_details={"cov": "b"}), Metadata()],
+                   "none-empty-missing": [Metadata(details={"x": None}), Metadata(details={"x": ""}), Metadata()]}.items():
+        add("B:" + nm, lambda ms=ms: Triangle([c for m in ms for c in grid(lambda i, j: m)]))
+    # C  calendar corners
+    add("C:february-2000", lambda: Triangle(grid(periods=[(D(2000, 1, 1), D(2000, 1, 31)), (D(2000, 2, 1), D(2000, 2, 29))],
+                                                  evs=[D(2000, 2, 28), D(2000, 2, 29), D(2000, 3, 1), D(2000, 3, 31)])))
+    add("C:february-2100", lambda: Triangle(grid(periods=[(D(2100, 1, 1), D(2100, 1, 31)), (D(2100, 2, 1), D(2100, 2, 28))],
+                                                  evs=[D(2100, 2, 27), D(2100, 2, 28), D(2100, 3, 1), D(2100, 3, 31)])))
+    add("C:far-future", lambda: Triangle(grid(periods=[(D(2240, 11, 1), D(2240, 11, 30)), (D(2240, 12, 1), D(2240, 12, 31))],
+                                               evs=[D(2240, 12, 31), D(2241, 1, 30), D(2241, 1, 31)])))
+    add("C:pre-1970", lambda: Triangle(grid(periods=[(D(1969, 11, 1), D(1969, 11, 30)), (D(1969, 12, 1), D(1969, 12, 31))],
+                                            evs=[D(1969, 12, 31), D(1970, 1, 31), D(1970, 2, 28)])))
+    # D  coordinates given as datetime / Timestamp / datetime subclass with a time of day
+
+    class _DT(datetime.datetime):
+        pass
+
+    conv = [lambda d: datetime.datetime(d.year, d.month, d.day, 13, 45), lambda d: pd.Timestamp(d) + pd.Timedelta(hours=23),
+            lambda d: _DT(d.year, d.month, d.day, 0, 0, 1)]
+    add("D:datetime-coordinates", lambda: Triangle(grid(coord=lambda d, k: conv[k](d))))
+    add("D:datetime-coordinates-incremental", lambda: Triangle(grid(coord=lambda d, k: conv[(k + 1) % 3](d), inc=True)))
+    # E  falsy but valid values
+    add("E:falsy-values", lambda: Triangle(grid(lambda i, j: Metadata(per_occurrence_limit=0, details={"z": 0, "e": "", "f": False, "n": None}),
+                                                lambda i, j: {"paid_loss": 0, "reported_loss": 0.0, "earned_premium": None if j else 0, "incurred_loss": False})))
+    # F  degenerate shapes
+    add("F:empty", lambda: Triangle([]))
+    add("F:one-cell", lambda: Triangle(grid(periods=Q[:1], evs=EV[:1])))
+    add("F:field-only-later+all-None", lambda: Triangle(grid(vals_of=lambda i, j: {"paid_loss": 5 + j, "written_premium": None,
+                                                                                      **({"reported_loss": 9} if j else {})})))
+    add("F:scalar-cells-after-sample-cells", lambda: Triangle(grid(lambda i, j: Metadata(details={"s": "A" if i < 2 else "B"}),
+                                                                   lambda i, j: {"paid_loss": arr(i, j) if i < 2 else 7.0, "earned_premium": 500})))
+    # G  NumPy corner types
+    big = np.arange(8, dtype=np.int64) * 3 + 2**55
+    add("G:numpy-scalars+0d+size1+strided", lambda: Triangle(grid(vals_of=lambda i, j: {
+        "paid_loss": big[::2], "reported_loss": np.float64(2.5 + j), "reported_claims": np.int64(2**60 + i),
+        "earned_premium": np.array(5.0), "incurred_loss": np.array([4.0]), "written_premium": np.arange(8.0)[1::2]})))
+    add("G:narrow-dtypes", lambda: Triangle(grid(vals_of=lambda i, j: {
+        "paid_loss": arr(i, j).astype(np.float32), "reported_loss": arr(i, j).astype(np.int32),
+        "reported_claims": arr(i, j).astype(np.int16), "incurred_loss": arr(i, j) > 11})))
+    add("G:2d-fortran", lambda: Triangle(grid(vals_of=lambda i, j: {"paid_loss": np.asfortranarray(np.arange(6.0).reshape(2, 3))})))
+    # I  restated cells
+    add("I:restated-cells", lambda: Triangle(grid() + grid(vals_of=lambda i, j: {"paid_loss": 1, "earned_premium": 2})))
+    # J  period layouts
+    add("J:semi-monthly", lambda: Triangle(grid(periods=[(D(2020, 1, 1), D(2020, 1, 15)), (D(2020, 1, 16), D(2020, 1, 31)), (D(2020, 2, 1), D(2020, 2, 15))],
+                                                evs=[D(2020, 1, 31), D(2020, 2, 15), D(2020, 2, 29)])))
+    add("J:nested-overlapping", lambda: Triangle(grid(periods=[(D(2020, 1, 1), D(2020, 3, 31)), (D(2020, 1, 1), D(2020, 12, 31)), (D(2020, 3, 1), D(2020, 6, 30))],
+                                                      evs=[D(2020, 12, 31), D(2021, 6, 30)])))
+    add("J:per-slice-ragged+gaps", lambda: Triangle(grid(lambda i, j: Metadata(country="US"), periods=Q[::2]) +
+                                                    grid(lambda i, j: Metadata(country="DE"), evs=EV[1:])))
+    add("J:incremental-plain", lambda: Triangle(grid(inc=True)))
+    _DIRECTED = out
+    return out
+
+
 def run_case(case: dict, tmp, stop_at_first=True):
     """case = {"seed": int, "shape": [v,b,s] | None, "ops": [names] | None, "length": int}
     Returns (record, violations).  Every call of the sequence is monitored; in addition every
@@ -458,7 +682,11 @@ def run_case(case: dict, tmp, stop_at_first=True):
     shape = tuple(case["shape"]) if case.get("shape") else None
     with warnings.catch_warnings():
         warnings.simplefilter("ignore")
-        root, info = gen_triangle(rng, shape)
+        if case.get("directed"):
+            root = directed_triangles()[case["directed"]]
+            info = {"shape": "directed:" + case["directed"], "n_cells": len(root), "directed": case["directed"]}
+        else:
+            root, info = gen_triangle(rng, shape)
     names = sorted(n for n in ops() if not (case.get("no_charts") and n.startswith("plot.plot_")))
     seq = case.get("ops") or [rng.choice(names) for _ in range(case.get("length", 1))]
     cur, live = root, [root]
@@ -475,10 +703,21 @@ def run_case(case: dict, tmp, stop_at_first=True):
             continue
         res, exc, changes = monitored(f, args, kwargs, extra_watch=live)
         trace.append((name, "raised:" + type(exc).__name__ if exc is not None else "returned"))
+        if case.get("directed") and exc is None and res is not None and not changes:
+            # HARDENING H: the same call again must not change what the first call handed out
+            try:
+                with warnings.catch_warnings():
+                    warnings.simplefilter("ignore")
+                    env2 = Env(cur, root, random.Random(case["seed"] * 1000003 + step), tmp, lambda r: gen_triangle(r)[0])
+                    f2, args2, kwargs2 = ops()[name](env2)
+                _, _, ch2 = monitored(f2, args2, kwargs2, extra_watch=[res])
+                changes += [(lab, "second identical call: " + pth) for lab, pth in ch2 if lab.startswith("live")]
+            except Exception:  # noqa: BLE001
+                pass
         for label, path in changes:
             violations.append({"seed": case["seed"], "shape": list(shape) if shape else None, "ops": list(seq),
                                "step": step, "op": name, "outcome": trace[-1][1], "argument": label, "change": path,
-                               "triangle": info.get("shape")})
+                               "triangle": info.get("shape"), "directed": case.get("directed")})
         # the known defaultdict finding (see c03.classify) does not end the exploration of a sequence
         if stop_at_first and any("defaultdict" not in v["change"] for v in violations):
             break
